@@ -22,8 +22,8 @@ ITER, SINGLE = 0, 1
 
 
 def fam_channel(E, np_, nc, fault_kinds, real=False, pmax=2, slow=True, close_modes=2,
-                placements=True):
-    gaps = [[E.num('g%d_%d' % (i, j), 0, 15, real=real) for j in range(2)] for i in range(np_)]
+                placements=True, nputs=2):
+    gaps = [[E.num('g%d_%d' % (i, j), 0, 15, real=real) for j in range(nputs)] for i in range(np_)]
     subs = [E.num('s%d' % i, 0, 15, real=real) for i in range(nc)]
     ckind = [E.pick('ck%d' % i, 2) for i in range(nc)]
     w = E.num('w', 0, 10, real=real) if slow else 0
@@ -36,7 +36,7 @@ def fam_channel(E, np_, nc, fault_kinds, real=False, pmax=2, slow=True, close_mo
     def producer(i):
         async def run():
             name = 'p%d' % i
-            for j in range(2):
+            for j in range(nputs):
                 await (time + gaps[i][j])
                 msg = (i, j)
                 log(name, 'put-call', msg)
@@ -175,6 +175,15 @@ FAMILIES = [
            thorough=dict(np_=2, nc=2, fault_kinds=[Fault.NONE, Fault.CANCEL]),
            reach=['none', 'put-after-close', 'await-on-closed'],
            bounds='quick: 1 producer, 2 consumers, consumer 0 slow, no fault; thorough: 2 producers x 2 puts, 2 consumers'),
+    Family('p2x1', fam_channel,
+           quick=dict(np_=2, nc=2, fault_kinds=[Fault.NONE], slow=False, close_modes=1, nputs=1),
+           thorough=dict(np_=2, nc=2, fault_kinds=[Fault.NONE, Fault.CANCEL], slow=False, nputs=1),
+           reach=['none'],
+           bounds='2 producers x 1 put (puts may coincide in one time step), 2 consumers'),
+    Family('c3', fam_channel,
+           quick=dict(np_=1, nc=3, fault_kinds=[Fault.NONE], slow=False, close_modes=1),
+           reach=['none', 'several-messages'],
+           bounds='1 producer x 2 puts, 3 consumers subscribing / leaving at different dates'),
     Family('p1c3', fam_channel,
            thorough=dict(np_=1, nc=3, fault_kinds=ALLF, pmax=2),
            bounds='1 producer, 3 consumers'),
